@@ -351,6 +351,16 @@ def gen_e2e(rng, n, kinds=("line", "trafo"), repeat=False):
         if len(cases) % 6 == 0 and "line" in kinds:
             case["faults"] = {str(rng.randint(1, 2)): [["line", "F0L0", "8"]]}
             case["n_inc"] = max(case["n_inc"], 12)
+        if repeat and len(cases) % 6 == 5 and not case.get("iters"):
+            # targeted: no failure for a while, a microgrid battery that recharges through a feeder whose first line cannot carry load
+            # plus charging power: the shedding routine sheds in failure-free increments (which are logged because a battery is not full)
+            spec["mg"] = {"host": [0, len(spec["feeders"][0]["parent"]) - 1], "mode": rng.choice(["full", "limited"]), "discon": False, "n": 2,
+                          "battery": {"p": "1/2", "q": "1/2", "e": "3", "smin": "1/10", "smax": "1", "eta": "1"}}
+            fd0 = spec["feeders"][0]
+            fd0["cap"] = [str(rng.choice([F(1, 5), F(3, 10)]))] + [None] * (len(fd0["parent"]) - 1)
+            ps = net.build(dict(spec, exact=False))
+            case["faults"] = {str(rng.randint(7, 9)): [["line", "F0L0", "2"]]}
+            case["n_inc"] = max(case["n_inc"], 12)
         if case.get("unit") and "line" in kinds:
             case["faults"].setdefault(str(rng.randint(1, 3)), []).append(["line", "F0L0", "2"])       # something is shed for sure
         if repeat and len(cases) % 4 == 1:
